@@ -10,7 +10,7 @@ import os
 import common
 import netgen
 
-FAMILIES = ["chain", "chain", "residual", "strided", "branch", "lutchain", "chain16", "upscale", "wide_ew"]
+FAMILIES = ["chain", "chain", "residual", "strided", "branch", "lutchain", "chain16", "upscale", "wide_ew", "multi_out"]
 
 
 def build(rng, idx, family=None):
@@ -89,8 +89,17 @@ def build(rng, idx, family=None):
         r = b.conv(cur, b.t(l).shape[3], (1, 1), (1, 1), (1, 1), "SAME")
         cur = b.binary("ADD", l, r) if b.t(l).shape == b.t(r).shape else l
         cur = step(cur, ["conv", "lut"]) or cur
+    outs = []
+    if family == "multi_out":
+        # intermediate results that are read by the next NPU operator AND leave the subgraph (network outputs / a CPU consumer)
+        for _ in range(rng.randint(2, 3)):
+            cur = step(cur, ["conv", "conv", "dw", "pool"]) or cur
+            if rng.random() < 0.7:
+                outs.append(cur)
+            if rng.random() < 0.3:
+                outs.append(b.cpu_op(cur, "custom"))
     cur = b.conv(cur, c0, rng.choice([(3, 3), (1, 1)]), (1, 1), (1, 1), "SAME") or cur
-    net = b.finish([cur])
+    net = b.finish([o for o in outs if o is not None and o != cur] + [cur])
     net.sched_max_fm = max(int(_bytes(t)) for t in net.tensors if t.data is None)
     return net
 
